@@ -89,11 +89,42 @@ Qed.
 Lemma hext_frame s h1 c : hext (s_heap s) h1 -> hframe s (mkS h1 (s_cur s) c).
 Proof. intros [L E]. split; [exact L|]. intros r Hr _. now apply E. Qed.
 
+Lemma frame_same s : hframe s s /\ o_backup (s_cur s) = o_backup (s_cur s) /\ exists pre : list mobj, s_others s = pre ++ s_others s.
+Proof. split; [split; [lia | auto]|]. split; [reflexivity|]. exists []. reflexivity. Qed.
+Lemma sub_step_frame ats s : W s ->
+  hframe s (fst (sub_step ats s)) /\ o_backup (s_cur (fst (sub_step ats s))) = o_backup (s_cur s) /\
+  exists pre, s_others (fst (sub_step ats s)) = pre ++ s_others s.
+Proof.
+  intros Ws. pose proof (W_cur s Ws) as Uc. unfold sub_step.
+  destruct (substructure ats (s_heap s) (s_cur s)) as [[[h2 o2] e]|err] eqn:E.
+  - destruct (sub_spec _ _ _ _ _ _ (proj1 (proj1 Uc)) E) as [h1 [sub0 [X [I0 [C0 [B0 [_ [Fr R]]]]]]]].
+    pose proof (fix_both_good h1 sub0 I0) as G. rewrite R in G. destruct G as [_ [HL [Un _]]].
+    assert (hext (s_heap s) h2) as X2.
+    { destruct X as [Lx E1]. split; [destruct HL; lia|]. intros r Hr. rewrite Un; [apply E1; exact Hr | lia |].
+      intros Hi. apply Fr in Hi. lia. }
+    destruct e as [e|]; cbn [fst]; (split; [now apply hext_frame|]); (split; [reflexivity|]); [exists [] | exists [o2]]; reflexivity.
+  - cbn [fst]. split; [split; [lia | auto]|]. split; [reflexivity|]. exists []. reflexivity.
+Qed.
+
+Lemma split_loop_frame cs : forall s old, W s -> (exists pre0, s_others s = pre0 ++ old) ->
+  hext (s_heap s) (s_heap (fst (split_loop cs s old))) /\ s_cur (fst (split_loop cs s old)) = s_cur s /\
+  exists pre, s_others (fst (split_loop cs s old)) = pre ++ old.
+Proof.
+  induction cs as [|c t IH]; intros [h o others] old Ws [pre0 Ep]; cbn [split_loop fst s_heap s_cur s_others] in *.
+  - split; [apply hext_refl|]. split; [reflexivity|]. exists pre0. exact Ep.
+  - destruct (substructure_g false c h o) as [[[h2 o2] e]|err] eqn:E;
+      [|cbn [fst s_heap s_cur s_others]; split; [apply hext_refl|]; split; [reflexivity|]; exists []; reflexivity].
+    destruct (W_sub_g false c h o others h2 o2 e Ws E) as [X K].
+    destruct e as [e|]; [cbn [fst s_heap s_cur s_others]; split; [exact X|]; split; [reflexivity|]; exists []; reflexivity|].
+    destruct (IH (mkS h2 o (o2 :: others)) old (K eq_refl)) as [X' [C' P']]; [exists (o2 :: pre0); cbn [s_others]; now rewrite Ep|].
+    cbn [s_heap s_cur] in *. split; [eapply hext_trans; eauto|]. split; assumption.
+Qed.
+
 Lemma body_step s p : W s -> op_ok s p -> body_op p = true ->
   hframe s (fst (step s p)) /\ o_backup (s_cur (fst (step s p))) = o_backup (s_cur s) /\
   exists pre, s_others (fst (step s p)) = pre ++ s_others s.
 Proof.
-  intros Ws Ok Bp. pose proof (W_cur s Ws) as Uc.
+  intros Ws Ok Bp. pose proof (W_cur s Ws) as Uc. pose proof (frame_same s) as Same.
   assert (forall a, good1 a -> hframe s (fst (lift a s)) /\ o_backup (s_cur (fst (lift a s))) = o_backup (s_cur s) /\
                                 exists pre, s_others (fst (lift a s)) = pre ++ s_others s) as L.
   { intros a G. destruct (lift_frame a s G Ws) as [A [B C]]. repeat split; try apply A; auto. exists []. exact C. }
@@ -108,14 +139,20 @@ Proof.
     + destruct (copy_mol_spec _ _ _ _ _ _ (proj1 (proj1 Uc)) E) as [cb [_ [_ [X _]]]].
       split; [now apply hext_frame|]. split; [reflexivity|]. exists [b]. reflexivity.
     + split; [split; [lia | auto]|]. split; [reflexivity|]. exists []. reflexivity.
-  - destruct (substructure ats (s_heap s) (s_cur s)) as [[[h2 o2] e]|err] eqn:E.
-    + destruct (sub_spec _ _ _ _ _ _ (proj1 (proj1 Uc)) E) as [h1 [sub0 [X [I0 [C0 [B0 [_ [Fr R]]]]]]]].
-      pose proof (fix_both_good h1 sub0 I0) as G. rewrite R in G. destruct G as [_ [HL [Un _]]].
-      assert (hext (s_heap s) h2) as X2.
-      { destruct X as [Lx E1]. split; [destruct HL; lia|]. intros r Hr. rewrite Un; [apply E1; exact Hr | lia |].
-        intros Hi. apply Fr in Hi. lia. }
-      destruct e as [e|]; cbn [fst]; (split; [now apply hext_frame|]); (split; [reflexivity|]); [exists [] | exists [o2]]; reflexivity.
-    + cbn [fst]. split; [split; [lia | auto]|]. split; [reflexivity|]. exists []. reflexivity.
+  - now apply sub_step_frame.
+  - now apply sub_step_frame.
+  - destruct (negb (subset_z ats (keys (o_atoms (s_cur s))))); [apply Same|].
+    destruct (filter (fun n => negb (zmem n ats)) (keys (o_atoms (s_cur s)))); [apply Same | now apply sub_step_frame].
+  - destruct (negb (subset_z ats (keys (o_adj (s_cur s))))); [apply Same|].
+    destruct (aug_grow (o_adj (s_cur s)) ats deep); [now apply sub_step_frame | apply Same].
+  - (* split *)
+    destruct (L (read Kcc) (read_good Kcc)) as [[L1 U1] [B1 [pre1 P1]]].
+    assert (W (fst (lift (read Kcc) s))) as W1 by (apply W_lift; [exact Ws | apply read_good | now apply read_HC]).
+    destruct (split_loop_frame (comps (o_adj (s_cur (fst (lift (read Kcc) s))))) (fst (lift (read Kcc) s)) (s_others (fst (lift (read Kcc) s))) W1)
+      as [[Lx Ex] [Cx [pre Px]]]; [exists []; reflexivity|].
+    assert (s_heap (fst (lift (read Kcc) s)) = s_heap s /\ s_others (fst (lift (read Kcc) s)) = s_others s) as [Eh Eo]
+      by (destruct s; split; reflexivity).
+    rewrite Eh in *. split; [split; [exact Lx | intros r Hr _; now apply Ex]|]. split; [rewrite Cx; exact B1|]. exists pre. now rewrite Px, Eo.
   - apply L, flush_good.
   - apply L, set_charge_good.
   - apply L, set_radical_good.
